@@ -13,9 +13,9 @@ CHECKS = {
          "Sound static analysis of structural necessary conditions: every path of RateLimitedIssuer.Evaluate that returns a response passes the success edges of complete parse, HPKE open under the issuer's own key with the request key in the associated data, registered-origin lookup and request-signature verification over all fields; BlindSign/Seal sit behind those edges; the request decoder checks every read and rejects trailing data. Quantifies over paths, hence over all inputs. Does not prove AEAD/ECDSA soundness (every single-bit change rejected).",
          "Trusts go/ssa dominators, this checker's term/reader extraction, go-hpke, circl blindrsa and crypto/elliptic behaving as documented.",
          "DESIGN.md §4 C07"),
- "C02": ("guard-dominance (must-pass-through) on SSA with symbolic argument bindings; constructor-binding and who-writes-field queries",
+ "C02": ("guard-dominance (must-pass-through) on SSA with symbolic argument bindings; constructor-binding and who-writes-field queries; bit-provenance abstract interpretation of the dependency's scalar decoders (input bits ignored); over-approximate dependence slice of the batched-proof weights; may-write summaries for the request state",
          "Sound static analysis of structural necessary conditions: every path of each FinalizeToken(s) that returns a token passes the success edge of the type's verification step bound to the state's pinned client/verifier/key; the returned token is decode(state token input ++ verified output); constructors bind the pinned state to the key/nonce/challenge/key id they were called with and nothing else writes it; type 5: count check and index-for-index pairing. Quantifies over paths (all responses). Does not prove that DLEQ/PSS/GCM reject every forged response.",
-         "Trusts go/ssa dominators, this checker's term evaluator, circl oprf/blindrsa, crypto/rsa, crypto/cipher behaving as documented.",
+         "Trusts go/ssa dominators, this checker's term evaluator, circl blindrsa, crypto/rsa, crypto/cipher behaving as documented; circl's OPRF finalization is trusted except where the check analyses it itself (scalar decoding, batching weights). One known finding is recorded and printed as KNOWN-FINDING: the batched DLEQ proof of type 5 does not bind the batch (DESIGN 9.4).",
          "DESIGN.md §4 C02"),
  "C10": ("guard-dominance on SSA with symbolic argument bindings",
          "Sound static analysis of a structural necessary condition: every accepting path of the type-1/type-5 Verify passes bytes.Equal(FullEvaluate(own key, suite, type||nonce||context||keyid from the token's own fields), token.Authenticator)=true on whole values. Quantifies over paths (all tokens). Does not prove the PRF separates inputs.",
@@ -37,7 +37,7 @@ CHECKS = {
          "Sound static analysis of structural necessary conditions: derivation layout of the blinding scalar (XMD DST, D||0x00||context, mod N, curve->hash/L table, unknown curves rejected, result is the element just computed, no mutable global state), a single derivation shared by blind/unblind/sign with arguments passed unchanged, inverse shapes (ScalarMult by k vs by k^-1 mod the same N; D*k mod N paired with the blinded public key), and the standard digest conversion/equations. Does not prove the algebraic laws or agreement with an independent hash-to-field.",
          "Trusts go/ssa, this checker's term evaluator and AST matcher, circl expander/HashToField, crypto/elliptic, GOROOT crypto/ecdsa source.",
          "DESIGN.md §4 C12"),
- "C15": ("symbolic layout/binding terms with in-place mutation history on SSA; reachability to entropy sources; mutable-global query over may-write summaries",
+ "C15": ("symbolic layout/binding terms with in-place mutation history on SSA; reachability to entropy sources; mutable-global query and argument read-only query over may-write summaries",
          "Sound static analysis of structural necessary conditions: the blinding scalar is SetBytes(SHA-512(blind||0x00||context)[:32]) - the same term at all three sites, assembled by appending to a fresh buffer (never to an argument's slice); blind/unblind/blinded-sign shapes; wrappers forward nil contexts and the right argument slots; no entropy source is reachable and no mutable package-level state is touched outside sync.Once. Does not prove the algebra or acceptance by a standard verifier.",
          "Trusts go/ssa, VTA call graph with Once.Do resolved at the site, this checker's term evaluator and effect summaries, crypto/sha512.",
          "DESIGN.md §4 C15"),
@@ -73,7 +73,7 @@ CHECKS = {
          "Sound static analysis of structural necessary conditions of an honest run completing: request encoders and the decoders the issuers use agree (widths = length of what the client stores); each issuer's response layout is what its client splits and parses; tokens are type||nonce||SHA-256(challenge)||key id||authenticator with widths 48/256/256/64 and are decoded from state token input || finalize output; constructors bind the token input to the type constant, nonce, challenge digest and key id; both ends name the same suite, hash, info strings, labels and exported-secret length; the type-3 issuer's unpadding inverts the client's origin padding for every name length (rules shared with C20); the QUIC-varint length prefixes of type 5 and batch messages are exact (rules shared with C19). Does not decide that the cryptography completes and verifies (dependencies' contract).",
          "Trusts go/types, go/ssa, this checker's term and reader extractors, the layout table (c04.go), circl/go-hpke/crypto as documented.",
          "DESIGN.md §4 C01"),
- "C11": ("call-graph reachability to entropy sources (VTA, Once.Do resolved at the site, std bodies as leaves) with positive control; parameter liveness by symbolic binding; mutable-global query over may-write summaries",
+ "C11": ("call-graph reachability to entropy sources (VTA, Once.Do resolved at the site, std bodies as leaves) with positive control; parameter liveness by symbolic binding; mutable-global query over may-write summaries; content-dependence slice of the rejecting branches on blind/salt bytes",
          "Sound static analysis of structural necessary conditions of reproducibility: the deterministic entry points reach no entropy source (their randomised siblings do - positive control), the supplied blinds/salt are exactly what DeterministicBlind/FixedBlind receive (element i with input i), no mutable package-level state is touched, and the state keeps its own serialized token input that contains no blind/salt parameter. Does not decide that unblinding cancels the blind nor agreement with the Rust vectors (arithmetic evaluation).",
          "Trusts go/ssa, VTA call graph, effects.go, this checker's term evaluator; std functions outside the sink list are deterministic.",
          "DESIGN.md §4 C11"),
